@@ -672,6 +672,76 @@ func pruneUndeclared(root, s sgen.M, v any, depth int) any {
 		}
 		return v
 	}
+	if bs, ok := s["allOf"].([]any); ok && len(bs) > 0 {
+		// the generated struct has the union of the branches' members (and the node's own)
+		union := sgen.M{}
+		open := false
+		add := func(n sgen.M) {
+			for hop := 0; hop < 8; hop++ {
+				ref, isRef := n["$ref"].(string)
+				if !isRef {
+					break
+				}
+				var next sgen.M
+				for _, kw := range []string{"$defs", "definitions"} {
+					if defs, ok := root[kw].(sgen.M); ok {
+						if d, ok := defs[ref[strings.LastIndex(ref, "/")+1:]].(sgen.M); ok {
+							next = d
+						}
+					}
+				}
+				if next == nil {
+					open = true
+					return
+				}
+				n = next
+			}
+			if _, has := n["additionalProperties"]; has {
+				open = true
+			}
+			if _, nested := n["allOf"]; nested {
+				open = true
+			}
+			if _, nested := n["anyOf"]; nested {
+				open = true
+			}
+			if ps, ok := n["properties"].(sgen.M); ok {
+				for k, x := range ps {
+					if _, dup := union[k]; !dup {
+						union[k] = x
+					}
+				}
+			}
+		}
+		if ps, ok := s["properties"].(sgen.M); ok {
+			for k, x := range ps {
+				union[k] = x
+			}
+		}
+		if _, has := s["additionalProperties"]; has {
+			open = true
+		}
+		for _, b := range bs {
+			if bm, ok := b.(sgen.M); ok {
+				add(bm)
+			} else {
+				open = true
+			}
+		}
+		if open || len(union) == 0 {
+			return v
+		}
+		if t, ok := v.(sgen.M); ok {
+			out := sgen.M{}
+			for k, x := range t {
+				if ps, declared := union[k].(sgen.M); declared {
+					out[k] = pruneUndeclared(root, ps, x, depth+1)
+				}
+			}
+			return out
+		}
+		return v
+	}
 	switch t := v.(type) {
 	case sgen.M:
 		props, ok := s["properties"].(sgen.M)
